@@ -115,6 +115,9 @@ class Segment(GeoBody):
             self.end_point = value
         else:
             raise IndexError("Index out of range")
+        # the supporting line follows the end points (as in move)
+        if not (self.start_point == self.end_point):
+            self.line = Line(self.start_point, self.end_point)
 
     def move(self, v):
         """Return the Segment that you get when you move self by vector v, self is also moved"""
